@@ -696,7 +696,7 @@ def pending_snapshot(zc):
         groups = []
         for name in ("out_queue", "out_delay_queue"):
             for g in getattr(zc, name).queue:
-                groups.append({fixu(rtuple(a)) for a in g.answers})
+                groups.append({fixu(rtuple(a)): {fixu(rtuple(x)) for x in adds} for a, adds in g.answers.items()})
         return groups
     except Exception:  # noqa: BLE001
         return None
@@ -882,11 +882,25 @@ def exec_wire(ops, seed, v6=False):
                     else:
                         continue
                     csteps.append({"op": c, "line": cline, "impl": "ok", "q": None})
+                # ---- queries after the change (first one with no await since the change when its gap is 0): each is owed the records
+                # of the state after the change in a datagram sent after its own arrival, whatever the queues held at the change
+                psteps, pmarks = [], []
+                for gap, qop in op.get("post", []):
+                    await sim.sleep_ms(gap)
+                    msgs, packets = parse(qop)
+                    pmarks.append(len(sim.net.log))
+                    psteps.append({"op": qop, "line": msg_line(msgs), "impl": "wire", "msgs": msgs})
+                    host.deliver(bytes(packets[0]), src_of(qop, 5353))
                 await sim.sleep_ms(2600)
                 for f in futs:
                     await f
                 pkts = grab(start, mark)
-                allq = [x for z in qsteps for x in z["msgs"][0].questions]
+                allq = [x for z in qsteps + psteps for x in z["msgs"][0].questions]
+                svcs_after = [fields(i) for i in book.values()]
+                for n, ps_ in enumerate(psteps):
+                    m0 = ps_.pop("msgs")[0]
+                    ps_["q"] = {"burst": (n, len(psteps)), "post": True, "svcs": svcs_after, "qs": list(m0.questions), "allqs": allq, "known": [],
+                                "pkts": grab(pmarks[n]), "scope": scope_of(ps_["op"]), "ettl": const._DNS_OTHER_TTL, "in_scope": True, "lost": set(lost)}
                 for n, qs_ in enumerate(qsteps):
                     m0 = qs_.pop("msgs")[0]
                     qs_["q"] = {"split": (n, len(qsteps)), "svcs": svcs_before, "svcs_after": [fields(i) for i in book.values()], "changed": changed, "kinds": kinds,
@@ -895,6 +909,7 @@ def exec_wire(ops, seed, v6=False):
                                 "scope": scope_of(op["query"]), "ettl": const._DNS_OTHER_TTL, "in_scope": True, "lost": set(lost)}
                 steps.extend(qsteps)
                 steps.extend(csteps)
+                steps.extend(psteps)
                 continue
             else:
                 continue
@@ -963,6 +978,9 @@ def wire_oracle(q, complete=True):
     found = classify_scope(found, svcs, qs, seen, observed, q["ettl"], q.get("scope"), qs_sound=qs_sound)
     if not complete:
         found = [x for x in found if not x[0].startswith("C03:missing-answer")]
+    if q.get("post"):
+        return [(sig + ":after-change", what + " -- asked after an update/unregister, for the state after it", d)
+                for sig, what, d in found if sig.startswith("C03:missing-answer")]
     lost = q.get("lost") or set()
     for sig, what, d in found:
         if sig.startswith("C03:missing-answer") and any(d in all_own([f], q["ettl"]) for f in svcs if f["name"].lower() in lost):
@@ -1016,18 +1034,20 @@ def change_oracle(q):
     registered *then*; datagrams transmitted before it are judged against the state before and against the questions asked.
 
     A stale record after the change is one of the recorded findings D20/D20b/D20c **only if the input is in their class**: the
-    datagram is a reply that was waiting in a multicast queue when the change was made (its answers were all pending then, and each
-    pending answer explains one datagram).  Anything else -- a stale announcement of the update itself, a reply computed after the
+    record was waiting in a multicast queue when the change was made -- as an answer (each pending answer explains one transmission:
+    a queued group may be merged with a reply computed after the change, so this is judged record by record), or as an additional of
+    such an answer in the same datagram.  Anything else -- a stale announcement of the update itself, a reply computed after the
     change from stale state -- is a fresh violation."""
     bad = []
     after = all_own(q["svcs_after"], q["ettl"])
     old = all_own(list(q["changed"].values()), q["ettl"])
     goodbye = {t[:5] + t[6:] for t in old}
     pending = q.get("pending")
-    budget = {}
+    budget, padds = {}, {}
     for g in pending or []:
-        for t in g:
+        for t, adds in g.items():
             budget[t] = budget.get(t, 0) + 1
+            padds.setdefault(t, set()).update(adds)
     # ---- datagrams sent before the change: replies to the questions asked, in the state before
     pre = [p for p in q["pkts"] if not p["after"]]
     if pre:
@@ -1040,11 +1060,11 @@ def change_oracle(q):
         stale = [t for t in recs if t not in after and not (t[5] == 0 and "unregister" in q["kinds"] and t[:5] + t[6:] in goodbye)]
         if not stale:
             continue
-        queued = pending is not None and all(budget.get(t, 0) > 0 for t in answers)
-        if queued:
-            for t in answers:
-                budget[t] -= 1
+        was_pending = [t for t in answers if budget.get(t, 0) > 0] if pending is not None else []
+        for t in was_pending:
+            budget[t] -= 1
         for t in stale:
+            queued = t in was_pending if t in answers else any(t in padds[a] for a in was_pending)
             if t in old and "update" in q["kinds"]:
                 if queued:
                     bad.append((SIG_D20, "a reply computed before async_update_service and still queued was multicast after the update with the "
@@ -1110,7 +1130,7 @@ def gen_change_history(rng):
             o = rng.choice(list(live.values()))
             spec["server"] = o["server"] if o["server"] else o["name"]
         ops.append({"op": "R", "svc": spec, "obj": nid})
-        live[nid] = spec
+        live[nid] = dict(spec)  # a copy: later writes are tracked here, the op keeps what was registered
         nid += 1
     for _ in range(rng.choice([1, 2, 3])):
         if not live:
@@ -1136,12 +1156,55 @@ def gen_change_history(rng):
             spec["server"] = live[i]["server"]
             op["change"] = [{"op": "Unew", "svc": spec, "obj": nid}]
             del live[i]
-            live[nid] = spec
+            live[nid] = dict(spec)  # a copy: later writes are tracked here, the op keeps what was registered
             nid += 1
         else:
             op["change"] = [{"op": "X", "objs": [i], "copy": rng.random() < 0.3}]
             del live[i]
+        if live and rng.random() < 0.5:
+            op["post"] = post_queries(rng, live, rng.choice([0, 5, 50, 300, 700]))
         ops.append(op)
+    return ops
+
+
+def post_queries(rng, live, first_gap):
+    """1-3 queries after a change, for services registered then; always several questions (so that the reply is aggregated, not sent
+    at once) and never two byte-identical datagrams (the listener drops those within a second)"""
+    posts = []
+    for n in range(rng.choice([1, 2, 3])):
+        f = spec_fields(live[rng.choice(list(live))])
+        qs = shaped_questions(f, rng.choice(["ptr", "txt", "srv+txt", "any", "ptr+a", "srv"])) + [["nosuch%d.local." % n, T_A, 1]]
+        posts.append([first_gap if n == 0 else rng.choice([100, 400, 700, 1500]), plain_query(qs)])
+    return posts
+
+
+def gen_queue_history(rng):
+    """the multicast queue across an unregister: two reply groups for service A are queued (a PTR question, a few ms later a TXT / ANY
+    question: the second group's random delay usually ends after the first one's, so the timer is re-armed for the first group's
+    aggregation deadline, arrival + 500 ms), A is unregistered inside that window (the D5 purge empties both groups), a question
+    for another service B arrives in the last ~100 ms before the deadline (a third group behind the two empty ones), later questions
+    for B follow.  Whatever the queue does with the empty groups, B's records are owed."""
+    ops, live, nid = [], {}, 0
+    while len(live) < rng.choice([2, 2, 3]):
+        spec = gen_svc(rng)
+        spec["httl"] = rng.choice([120, 4500])
+        spec["ottl"] = rng.choice([4500, 60])
+        if any(x["name"].lower() == spec["name"].lower() for x in live.values()):
+            continue
+        ops.append({"op": "R", "svc": spec, "obj": nid})
+        live[nid] = dict(spec)  # a copy: later writes are tracked here, the op keeps what was registered
+        nid += 1
+    i = rng.choice(list(live))
+    fa = spec_fields(live[i])
+    pre_gap = rng.choice([3, 5, 10, 15, 19, 40])
+    delay = rng.choice([60, 100, 200, 300, 380])
+    late = rng.choice([3, 10, 20, 30, 40, 60, 90])          # how long before the first group's aggregation deadline B is asked for
+    op = {"op": "QC", "pre": plain_query([[fa["type"], T_PTR, 1]]), "pre_gap": pre_gap,
+          "query": plain_query(rng.choice([[[fa["name"], T_TXT, 1]], [[fa["name"], T_ANY, 1]], [[fa["name"], T_TXT, 1], ["nosuch.local.", T_A, 1]]])),
+          "delay": delay, "change": [{"op": "X", "objs": [i], "copy": rng.random() < 0.2}]}
+    del live[i]
+    op["post"] = post_queries(rng, live, max(0, 500 - late - pre_gap - delay))
+    ops.append(op)
     return ops
 
 
@@ -1169,7 +1232,7 @@ def gen_wire_history(rng):
                 op["ttl"] = rng.choice([60, 10, 4500, 121])
                 spec = dict(spec, httl=op["ttl"], ottl=op["ttl"])
             ops.append(op)
-            live[nid] = spec
+            live[nid] = dict(spec)  # a copy: later writes are tracked here, the op keeps what was registered
             nid += 1
             if "ttl" in op:
                 ops.append(dict(plain_query(shaped_questions(spec_fields(spec), rng.choice(["ptr", "txt", "srv+txt", "any"]))), port=5353))
@@ -1215,7 +1278,7 @@ def gen_wire_history(rng):
             spec = dict(gen_svc(rng, name=live[i]["name"], type_=live[i]["type"]), server=None)
             ops.append({"op": "Unew", "svc": spec, "obj": nid, "noserver": True})
             past.insert(0, live.pop(i))
-            live[nid] = spec
+            live[nid] = dict(spec)  # a copy: later writes are tracked here, the op keeps what was registered
             nid += 1
             ops.append(dict(plain_query(shaped_questions(spec_fields(spec), rng.choice(["ptr", "srv", "txt"]))), port=5353))
             continue
@@ -1304,17 +1367,17 @@ def assess_wire(res, ops, steps, errors, model_line, seed, v6=False):
             continue
         if q.get("burst"):
             j, n = q["burst"]
-            res.count("burst-queries")
+            res.count("queries-after-change" if q.get("post") else "burst-queries")
             if q["in_scope"]:
                 report(wire_oracle(q), i)
             union = sorted({nou(rline(a)) for p in q["pkts"] for a in p["answers"]})
             if union:
-                res.nontriv(("burst", j, n, tuple(sorted(x.type for x in q["qs"])), min(len(union), 4), len(q["pkts"]), v6))
+                res.nontriv(("post" if q.get("post") else "burst", j, n, tuple(sorted(x.type for x in q["qs"])), min(len(union), 4), len(q["pkts"]), v6))
             if mobs is not None:
                 mine = model_dict(mobs[i])
                 if not set(mine) <= set(union):
                     res.disagree("c03-wire-burst-complete", dict(case, step=i), union, sorted(mine))
-                if j == 0:
+                if j == 0 and not q.get("post"):
                     allm = set()
                     for jj in range(i, i + n):
                         allm |= set(model_dict(mobs[jj]))
@@ -1468,7 +1531,7 @@ def gen_history(rng, nops):
                     spec["httl"] = o["httl"]
             ops.append({"op": "R", "svc": spec, "obj": nid})
             if not any(s["name"].lower() == spec["name"].lower() for s in live.values()):
-                live[nid] = spec
+                live[nid] = dict(spec)  # a copy: later writes are tracked here, the op keeps what was registered
             nid += 1
         elif r < 0.36:
             i = rng.choice(list(live))
@@ -1492,7 +1555,7 @@ def gen_history(rng, nops):
             spec["name"] = old["name"]
             ops.append({"op": "Unew", "svc": spec, "obj": nid})
             past.insert(0, live.pop(i))
-            live[nid] = spec
+            live[nid] = dict(spec)  # a copy: later writes are tracked here, the op keeps what was registered
             nid += 1
             if rng.random() < 0.4:
                 ops.append(gen_query(rng, cur_fields(live), fl(past), force_enum=rng.random() < 0.5))
@@ -1525,7 +1588,7 @@ def gen_history(rng, nops):
         elif r < 0.63 and past:
             # update / remove of something that is not registered
             ops.append({"op": "Unew", "svc": gen_svc(rng), "obj": nid})
-            live[nid] = ops[-1]["svc"]
+            live[nid] = dict(ops[-1]["svc"])
             # (if its key collides with a live one the older object is replaced; the run-time book decides)
             for j, s in list(live.items()):
                 if j != nid and s["name"].lower() == live[nid]["name"].lower():
@@ -1752,7 +1815,7 @@ def run(ctx):
             runs.append((ops, seed, v6, steps, errors))
         for w in range(2 * wire_budget):
             wr = C.rng_for(ctx["seed"], "c03-wire", w)
-            ops = gen_wire_history(wr) if w % 2 == 0 else gen_change_history(wr)
+            ops = gen_wire_history(wr) if w % 2 == 0 else (gen_queue_history(wr) if w % 4 == 3 else gen_change_history(wr))
             seed = ctx["seed"] * 100003 + w
             v6 = wr.random() < 0.35   # the host's only socket is an IPv6 socket
             steps, errors = exec_wire(ops, seed, v6)
